@@ -319,7 +319,10 @@ func genHistory(rng *rand.Rand, c05 bool) *history {
 		n = 20 + rng.Intn(60)
 	}
 	pAcc := []float64{1, 1, 0.7, 0.2}[rng.Intn(4)]
-	deferring := rng.Intn(3) == 0 // some accept callbacks are invoked only after later checks and accepts
+	// C04 only: some accept callbacks are invoked only after later checks and accepts. C05 is quantified over histories in
+	// which a callback is invoked before the next check or never, so its histories do not defer (the code path for deferred
+	// callbacks under C05 below is kept for replaying witnesses but no generated history reaches it).
+	deferring := !c05 && rng.Intn(3) == 0
 	// generator-side walk around its own idea of "newest" (simply: last number it asked to accept)
 	var cur uint64
 	switch rng.Intn(6) {
